@@ -9,7 +9,7 @@ RULE = ("diagrams: table knots and mirrors, a rotating sample of the library's k
         "recorded witness T(5,6) + trefoil of the known finding; per diagram the bigraded tables over Z (i64; i128 and BigInt up to 9 "
         "crossings), Q, F2, F3, reduced and unreduced, through both library routes; evaluated relations: routes agree cell by cell, "
         "rank_Q = rank_Z, dim_Fp(i,j) = rank + #{p | tors(i,j)} + #{p | tors(i+1,j)}, F2 unreduced(i,j) = red(i,j-1) + red(i,j+1), "
-        "i64 = i128 = BigInt, and equality with the oracle's tables for diagrams up to 6 (8) crossings. "
+        "i64 = i128 = BigInt, the tables computed without generators (compute_homology(false), i64; i128 up to 10 crossings) = the tables with generators (10_132 and its mirror always in the corpus), and equality with the oracle's tables for diagrams up to 6 (8) crossings. "
         "`ig` cases (every diagram of the corpus, i64 unreduced and reduced, BigInt too up to 7 crossings; the witness over BigInt unreduced): the "
         "harness dumps, through the public API, what collect_gen_info reads of KhHomology::new(l,0,0,red) (per homological "
         "degree rank, torsion orders, q-degrees of the terms of every generator) together with into_bigraded() of the same object "
